@@ -82,6 +82,12 @@ type Prop interface {
 // randomness or read a clock.
 var Beat = func(msg string) {}
 
+// KnownStripper is implemented by properties that have recorded known
+// findings: StripKnown returns the case without the constructs behind them.
+type KnownStripper interface {
+	StripKnown(c *Case) (*Case, bool)
+}
+
 var registry = map[string]Prop{}
 
 func Register(p Prop) { registry[p.ID()] = p }
